@@ -426,6 +426,9 @@ def _x2_large(ctx, cur):
     sizes = [('zero-touches', rng.choice([20000, 32768, 60000])), ('int-walk', rng.choice([10000, 16384, 50000])), ('noise', rng.choice([8192, 30000]))]
     if not quick:
         sizes += [(k, m) for k in ('zero-touches', 'int-walk', 'noise', 'excursions') for m in (4096, 5001, 65536, 100000)]
+    # source hints: numbers of samples / of crossings, turning points and excursions ('zigzag': one per sample) around every new integer constant
+    hs = gen.hint_sizes(ctx, lo=9, hi=300000, cap=4, halves=True)
+    sizes += [('zero-touches', m) for m in hs if m > 600] + [('zigzag', m + d) for m in hs for d in (0, 2)]
     for kind, n in sizes:
         seed = rng.randrange(2 ** 31)
         g = np.random.default_rng(seed)
@@ -434,6 +437,8 @@ def _x2_large(ctx, cur):
             v = _excursion_record(_random.Random(seed), n, zero_touch=(kind == 'zero-touches'))
         elif kind == 'int-walk':
             v = g.integers(-2, 3, size=n).astype(float)
+        elif kind == 'zigzag':
+            v = (g.integers(1, 4, size=n) * (-1) ** np.arange(n)).astype(float)
         else:
             v = g.standard_normal(n)
         desc = {'generator': 'c12.extras2 large', 'kind': kind, 'n': n, 'seed': seed}
